@@ -394,6 +394,10 @@ def setitem(it, v, idx, val):
         try:
             if isinstance(val, (list, tuple)):
                 val = as_array(val)
+            if id(v) in getattr(it, "int_arrays", {}):
+                # integer dtype: numpy truncates toward zero on assignment
+                val = elementwise(lambda x: x if (isinstance(x, int) or (is_sym(x) and x.is_integer)) else call_builtin(it, "int", [x], {}), as_array(val)) \
+                    if isinstance(val, np.ndarray) else (val if (isinstance(norm(val), int) or (is_sym(norm(val)) and norm(val).is_integer)) else call_builtin(it, "int", [val], {}))
             v[i] = val
         except IndexError as exc:
             raise PyExc("IndexError", (str(exc),))
